@@ -13,7 +13,7 @@ META = {
     "technique": "exhaustive small-scope enumeration of models x containers x labels, bounds compared with the full truth table",
     "text": "Every model with <=3 variables and <=3 (quick) / <=4 (thorough) terms over {-2,-1,-1/2,1,2,3} with and without offset, in every container, "
             "raw-dict spelling and label scheme, is passed to the four approximate_*_extrema functions and to anneal_temperature_range with all 15 "
-            "admissible probability pairs from {0,.01,.3,.5,.99}; lo<=min, hi>=max, constants, T0>=Tf>=0 and (0,0) are checked on each. Histories: on every model type, "
+            "admissible probability pairs from {0,.01,.3,.5,.99} plus 6 pairs with probabilities within 1e-10 .. 2^-53 of 1; lo<=min, hi>=max, constants, T0>=Tf>=0 and (0,0) are checked on each. Histories: on every model type, "
             "the extrema functions are queried before and after each of <=2 edits from a menu of 16 (del / pop / popitem / item assignment / += -= *= / *= {} / clear / update): "
             "the bounds must describe the model as it is at that moment.",
     "note": "Bounded: n<=3, dyadic coefficient alphabet (exact in doubles). Models are in refreshed state.",
@@ -22,6 +22,9 @@ META = {
 COEFS = (-2, -1, -0.5, 1, 2, 3)
 OFFSETS = (0, -1.5)
 PROBS = (0, 0.01, 0.3, 0.5, 0.99)
+# flip probabilities within rounding distance of 1 (huge temperatures; start >= end)
+_P1, _P2, _P3 = 1 - 1e-10, 1 - 1e-12, 1 - 2.0 ** -53
+NEAR_ONE_PAIRS = [(_P1, _P1), (_P2, _P1), (_P3, _P3), (_P3, _P1), (_P2, 0.5), (_P3, 1e-300)]
 N = 3
 
 
@@ -97,8 +100,9 @@ def check(case, st):
             # anneal_temperature_range (quick tier: label schemes int/str/gap only)
             if case.get("tier") == "quick" and sch not in ("int", "str", "gap"):
                 continue
-            for i, s in enumerate(PROBS):
-                for e in PROBS[:i + 1]:
+            pairs = [(s, e) for i, s in enumerate(PROBS) for e in PROBS[:i + 1]] + (NEAR_ONE_PAIRS if sch == "int" else [])
+            for s, e in pairs:
+                if True:
                     st.transitions += 1
                     st.traces += 1
                     r, _w = call(anneal_temperature_range, M, s, e, spin)
